@@ -1,5 +1,6 @@
 """Models for the parsing side: nom's fixed-size readers and take/take_till, integer ranges, scripted
 readers (io::Read / BufRead), allocation requests with a proportionality budget.  Trusted base."""
+import os
 import re
 
 import z3
@@ -250,6 +251,14 @@ def _index3(ex, args, f):
     r = deref_all(ex, args[1])
     is_str = isinstance(base, Str)
     s = base if is_str else None
+    if isinstance(r, Int) and isinstance(base, (Arr, VecV)):
+        # v[i] through the Index trait (element access): a reference into the container
+        from intrinsics2 import container_ref
+        if not ex.decide(z3.ULT(r.e, len(base.items))):
+            raise PathEnd("panic", "index out of bounds")
+        k = pick(ex, r, len(base.items) - 1)
+        cref, _ = container_ref(ex, args[0])
+        return Ref(cref.cell, cref.proj + (("idx", k),))
     if not is_str:
         if isinstance(base, (Arr, VecV)):
             s = Str(as_bytes(ex, base))
@@ -1146,9 +1155,52 @@ def _bits_retain(ex, args, f):
     return Adt(m.group(1) if m else "Flags", "bits", [deref_all(ex, args[0])])
 
 
+_FLAG_MASKS = {}
+
+
+def flags_mask(name):
+    """union of the named constants of a bitflags! type, evaluated from the repository's source"""
+    if not _FLAG_MASKS:
+        import glob
+        from symex import REPO_ROOT
+        for p in glob.glob(os.path.join(REPO_ROOT[0], "src", "**", "*.rs"), recursive=True):
+            txt = open(p, errors="replace").read()
+            for m in re.finditer(r"pub struct (\w+): u(?:8|16|32|64) \{(.*?)\n    \}", txt, re.S):
+                vals = {}
+                for c in re.finditer(r"const (\w+)\s*=\s*([^;]+);", m.group(2)):
+                    e = re.sub(r"Self::(\w+)\.bits\(\)", lambda mm: str(vals[mm.group(1)]), c.group(2))
+                    e = re.sub(r"_?u(?:8|16|32|64)\b", "", e)
+                    if not re.fullmatch(r"[\s0-9xXa-fA-F_|<()&+]*", e):
+                        raise Unsupported("bitflags constant %s::%s = %s" % (m.group(1), c.group(1), c.group(2)))
+                    vals[c.group(1)] = eval(e.replace("_", ""))
+                mask = 0
+                for v in vals.values():
+                    mask |= v
+                _FLAG_MASKS[m.group(1)] = mask
+    if name not in _FLAG_MASKS:
+        raise Unsupported("no bitflags! definition found for %s" % name)
+    return _FLAG_MASKS[name]
+
+
+def _bits_truncate(ex, args, f):
+    m = re.search(r"<impl (?:constants::)?(\w+)>::from_bits_truncate", f)
+    x = deref_all(ex, args[0])
+    return Adt(m.group(1), "bits", [Int(x.e & flags_mask(m.group(1)), x.ty)])
+
+
+def _bits_checked(ex, args, f):
+    m = re.search(r"<impl (?:constants::)?(\w+)>::from_bits\b", f)
+    x = deref_all(ex, args[0])
+    if ex.decide((x.e & ~z3.BitVecVal(flags_mask(m.group(1)), x.e.size())) != 0):
+        return NONE
+    return some(Adt(m.group(1), "bits", [x]))
+
+
 for _fl in ("DependencyFlags", "FileFlags", "ScriptletFlags", "FileVerifyFlags"):
-    I["constants::_::<impl constants::%s>::from_bits_retain" % _fl] = _bits_retain
-    I["constants::_::<impl %s>::from_bits_retain" % _fl] = _bits_retain
+    for _pre in ("constants::_::<impl constants::%s>::", "constants::_::<impl %s>::"):
+        I[(_pre % _fl) + "from_bits_retain"] = _bits_retain
+        I[(_pre % _fl) + "from_bits_truncate"] = _bits_truncate
+        I[(_pre % _fl) + "from_bits"] = _bits_checked
 
 
 @intr("core::slice::<impl [T]>::binary_search_by_key", "core::slice::<impl [T]>::binary_search_by", "core::slice::<impl [T]>::binary_search")
@@ -1451,7 +1503,82 @@ def _into_iter9(ex, args, f, _prev=I["<_ as IntoIterator>::into_iter"]):
     return _prev(ex, args, f)
 
 
-@intr("Arguments::from_str_nonconst", "Arguments::<'_>::from_str_nonconst", "Arguments::from_str", "Arguments::<'_>::from_str")
-def _args_from_str(ex, args, f):
-    # fmt::Arguments built from a plain string piece (messages of panics such as unreachable!("..."))
-    return Opaque("fmt::Arguments", args[0])
+I["Arguments::from_str_nonconst"] = I["Arguments::from_str"]
+I["Arguments::<'_>::from_str_nonconst"] = I["Arguments::from_str"]
+
+
+# ---- compression encoders behind FFI (C17): constructor contracts only ------------------------------------------------------------------
+# The encoders are C libraries (zlib/miniz, liblzma, libbz2, libzstd).  Only what their Rust constructors do with the level is modelled,
+# read from the pinned crate sources:
+#   flate2 1.1.10  Compression::new(l) stores l; GzEncoder::new -> Deflate::make: debug_assert!(l <= 10) (panics in builds with debug assertions)
+#   liblzma 0.4.8  XzEncoder::new(w, l): Stream::new_easy_encoder(l, ..).unwrap(): lzma_easy_encoder rejects (l & 0x1f) > 9 or flag bits other than PRESET_EXTREME (1 << 31)
+#   bzip2 0.5.2    Compression::new(l) stores l; BzEncoder::new -> Compress::new: assert_eq!(BZ2_bzCompressInit(.., l, ..), 0): BZ_PARAM_ERROR unless 1 <= l <= 9
+#   zstd 0.13.3    Encoder::new(w, l) -> io::Result (ZSTD clamps the level): never panics; may return an error
+class LevelV:
+    def __init__(self, lib, level):
+        self.lib = lib
+        self.level = level
+
+
+@intr("flate2::Compression::new")
+def _flate2_level(ex, args, f):
+    return LevelV("flate2", deref_all(ex, args[0]))
+
+
+@intr("bzip2::Compression::new")
+def _bzip2_level(ex, args, f):
+    return LevelV("bzip2", deref_all(ex, args[0]))
+
+
+def encoder_panics(lib, l):
+    """the condition (over a 32-bit level) under which the encoder constructor panics"""
+    if lib == "flate2":
+        return z3.UGT(l, 10)
+    if lib == "liblzma":
+        return z3.Or(z3.UGT(l & 0x1f, 9), (l & 0x7fffffe0) != 0)
+    if lib == "bzip2":
+        return z3.Or(z3.ULT(l, 1), z3.UGT(l, 9))
+    raise KeyError(lib)
+
+
+@intr("flate2::write::GzEncoder::new")
+def _gz_new(ex, args, f):
+    if ex.decide(encoder_panics("flate2", deref_all(ex, args[1]).level.e)):
+        raise PathEnd("panic", "flate2 GzEncoder::new: debug_assert!(level <= 10)")
+    return Opaque("GzEncoder")
+
+
+@intr("liblzma::write::XzEncoder::new")
+def _xz_new(ex, args, f):
+    if ex.decide(encoder_panics("liblzma", deref_all(ex, args[1]).e)):
+        raise PathEnd("panic", "liblzma XzEncoder::new: new_easy_encoder(level).unwrap() on an unsupported preset")
+    return Opaque("XzEncoder")
+
+
+@intr("bzip2::write::BzEncoder::new")
+def _bz_new(ex, args, f):
+    if ex.decide(encoder_panics("bzip2", deref_all(ex, args[1]).level.e)):
+        raise PathEnd("panic", "bzip2 BzEncoder::new: assert_eq!(BZ2_bzCompressInit(level), 0)")
+    return Opaque("BzEncoder")
+
+
+@intr("zstd::Encoder::new", "zstd::stream::Encoder::new")
+def _zstd_new(ex, args, f):
+    fsq = getattr(ex, "_zstd_n", 0) + 1
+    ex._zstd_n = fsq
+    return ok(Opaque("ZstdEncoder")) if ex.decide(z3.Bool("zstd_new_ok_%d" % fsq)) else err(Opaque("io::Error(zstd)"))
+
+
+@intr("std::ops::RangeInclusive::new", "RangeInclusive::new")
+def _range_incl_new(ex, args, f):
+    return Adt("RangeInclusive", "RangeInclusive", [deref_all(ex, args[0]), deref_all(ex, args[1])])
+
+
+@intr("std::ops::RangeInclusive::contains", "RangeInclusive::contains")
+def _range_incl_contains(ex, args, f):
+    r = deref_all(ex, args[0])
+    x = deref_all(ex, args[1])
+    lo, hi = r.fields[0], r.fields[1]
+    if x.signed:
+        return Bool(z3.And(lo.e <= x.e, x.e <= hi.e))
+    return Bool(z3.And(z3.ULE(lo.e, x.e), z3.ULE(x.e, hi.e)))
